@@ -501,6 +501,7 @@ pub fn run_case_caught(case: &Case, trace: bool) -> CaseResult {
     stretto::verif::set_thread_yield_hook(None);
     stretto::verif::set_thread_yield_hook2(None);
     let _ = panics_take();
+    let _watch = watch_case("lockstep", case);
     let r = catch_unwind(AssertUnwindSafe(|| run_case(case, trace)));
     crate::clock::set_thread(None);
     stretto::verif::set_thread_yield_hook(None);
@@ -780,10 +781,13 @@ pub fn run_comp<S, M>(
 where
     S: Strategy,
     M: Fn() -> S + Sync,
-    S::Value: Clone + Send + std::fmt::Debug + serde::Serialize + std::hash::Hash,
+    S::Value: Clone + Send + std::fmt::Debug + serde::Serialize + std::hash::Hash + 'static,
 {
     let harness_err: parking_lot::Mutex<Option<String>> = parking_lot::Mutex::new(None);
-    let res = run_prop(mk, n, seed, 16, stats, |case| match f(case) {
+    let res = run_prop(mk, n, seed, 16, stats, |case| match {
+        let _watch = watch_case(engine, case);
+        f(case)
+    } {
         Err(m) if m.contains("HARNESS") => {
             *harness_err.lock() = Some(m);
             Ok(())
